@@ -135,7 +135,8 @@ def gen_doc(rng, max_custom=3, allow_data=True, dlm=None, vers=None, wrap=None, 
             tag = "%dq%d" % (s.id, j)
             # (outside ~Parameter the LAST colon of a line ends the value: values may hold colons of their own)
             extra = rng.choice(["", "", "", "", " : 3", ":30", " :x", ": y", " : a : b"]) if letter != "P" else ""
-            out.append((item_line(rng, "M" + tag, rng.choice(UNITS), "v" + tag + extra, "from-%s-%s" % (letter, tag)), "item", tag))
+            ff = "\x0cp.2" if rng.random() < 0.04 else ""
+            out.append((item_line(rng, "M" + tag, rng.choice(UNITS), "v" + tag + extra, "from-%s-%s" % (letter, tag) + ff), "item", tag))
         return out
     v = new("V", title("V"))
     lines = [(item_line(rng, "VERS", "", vers, "CWLS LOG ASCII STANDARD - VERSION " + vers), "steer", None)]
@@ -177,7 +178,9 @@ def gen_doc(rng, max_custom=3, allow_data=True, dlm=None, vers=None, wrap=None, 
         lines = []
         for j in range(rng.randint(0, 3)):
             tag = "%dq%d" % (o.id, j)
-            lines.append((rng.choice(["other-%s", "  other-%s  ", "other-%s : with . colon", "VERS. 1.2 : other-%s", "other-%s # x"]) % tag, "other", tag))
+            # (a form feed inside a line — a page break of a printed remark — is white space, not a line end)
+            lines.append((rng.choice(["other-%s", "  other-%s  ", "other-%s : with . colon", "VERS. 1.2 : other-%s", "other-%s # x",
+                                      "other-%s\x0cnext page", "page\x0cother-%s"]) % tag, "other", tag))
         if rng.random() < fill:
             lines.insert(rng.randint(0, len(lines)), ("", "blank", None))
         o["body"] = lines
